@@ -706,7 +706,7 @@ impl Env {
         let meta = self.index.load_metas().or_fail("load_metas_failed")?;
         Ok(meta.segments.iter().map(|m| m.max_doc()).max().unwrap_or(0))
     }
-    fn after_writer_gone(&mut self) -> CaseResult {
+    pub fn after_writer_gone(&mut self) -> CaseResult {
         self.stats.reopen += 1;
         self.pending = self.committed.clone();
         self.dirty = false;
